@@ -254,8 +254,17 @@ def _interior_params(sa_, sb_):
 
 def _mk_interior(op, sa_, sb_, budget=None):
     ps, pre = _interior_params(sa_, sb_)
-    return Ob("%s/interior/%s-%s" % (op, "".join(map(str, sa_)) or "e", "".join(map(str, sb_)) or "e"), "binop_interior",
-              dict(op=op, a=sa_, b=sb_), ps, pre, budget=budget)
+    ob = Ob("%s/interior/%s-%s" % (op, "".join(map(str, sa_)) or "e", "".join(map(str, sb_)) or "e"), "binop_interior",
+            dict(op=op, a=sa_, b=sb_), ps, pre, budget=budget)
+    # quick-tier counterpart when measured slow: a's coordinates pinned to 0, 2, 4, ... per fiber; b, all values stay symbolic
+    pin = {}
+    for i, c in enumerate(names("a", len(sa_))):
+        pin[c] = 2 * i
+    for i, n in enumerate(sa_):
+        for j, c in enumerate(names("a%dc" % i, n)):
+            pin[c] = 2 * j
+    ob.pin = pin
+    return ob
 
 
 # ----------------------------------------------------------------------------- n-ary forms
